@@ -908,9 +908,9 @@ func (c *Cluster) classifyC13(v *Violation) {
 		}
 		var full *SimNode
 		for _, m := range c.nodes {
-			if m.running() && !m.ffDone && !m.isObserver {
+			// the most advanced full-history node
+			if m.running() && !m.ffDone && !m.isObserver && (full == nil || m.node.GetLastBlockIndex() > full.node.GetLastBlockIndex()) {
 				full = m
-				break
 			}
 		}
 		if full == nil {
@@ -941,10 +941,42 @@ func (c *Cluster) classifyC13(v *Violation) {
 		// (c) same cause seen from an event: find an event whose round differs
 		// and look for a missing witness of its parent round
 		for _, de := range c.dag.order {
-			en, err1 := nstore.GetEvent(de.Hash)
-			ef, err2 := store.GetEvent(de.Hash)
-			if err1 != nil || err2 != nil || en.SimRound() < 0 || ef.SimRound() < 0 || en.SimRound() == ef.SimRound() {
+			if _, err := nstore.GetEvent(de.Hash); err != nil {
 				continue
+			}
+			if _, err := store.GetEvent(de.Hash); err != nil {
+				continue
+			}
+			// (the round as the node computes it: the field of a frame event or of
+			// an event reloaded from the database may be unset)
+			rn, err1 := n.core().Hashgraph().SimRoundOf(de.Hash)
+			rf, err2 := full.core().Hashgraph().SimRoundOf(de.Hash)
+			if err1 != nil || err2 != nil || rn < 0 || rf < 0 || rn == rf {
+				continue
+			}
+			en, ef := roundHolder(rn), roundHolder(rf)
+			if debugTrace {
+				fmt.Fprintf(os.Stderr, "  C13 classify: event %s (n%d#%d): reset node %d round %d, full node %d round %d; anchor round %d\n", short(de.Hash), c.byPub[de.Creator].idx, de.Index, n.idx, en.SimRound(), full.idx, ef.SimRound(), lb)
+				pr := ef.SimRound() - 1
+				if ri, err := store.GetRound(pr); err == nil {
+					for _, w := range ri.Witnesses() {
+						dw := c.dag.events[w]
+						_, errn := nstore.GetEvent(w)
+						wn, _ := n.core().Hashgraph().SimWitness(w)
+						rn := -9
+						if evn, err := nstore.GetEvent(w); err == nil {
+							rn = evn.SimRound()
+						}
+						if dw != nil {
+							fmt.Fprintf(os.Stderr, "     round %d witness %s (n%d#%d): at reset node present=%v round=%d witness=%v\n", pr, short(w), c.byPub[dw.Creator].idx, dw.Index, errn == nil, rn, wn)
+						}
+					}
+				}
+				if rin, err := nstore.GetRound(pr); err == nil {
+					fmt.Fprintf(os.Stderr, "     reset node lists %d witnesses in round %d\n", len(rin.Witnesses()), pr)
+				} else {
+					fmt.Fprintf(os.Stderr, "     reset node has no round %d: %v\n", pr, err)
+				}
 			}
 			for r := ef.SimRound() - 1; r <= ef.SimRound(); r++ {
 				if r < 0 {
@@ -964,7 +996,7 @@ func (c *Cluster) classifyC13(v *Violation) {
 					}
 				}
 			}
-			break
+			// (keep looking: the first differing event may only inherit the difference)
 		}
 		for _, p := range store.RepertoireByID() {
 			fr, ok := store.FirstRound(p.ID())
@@ -1462,3 +1494,8 @@ func (c *Cluster) lateSetChangeFor(n *SimNode, r int, firstStep int, event strin
 	}
 	return false
 }
+
+// roundHolder lets the classification code keep its shape (x.SimRound()).
+type roundHolder int
+
+func (r roundHolder) SimRound() int { return int(r) }
